@@ -18,10 +18,10 @@ From Salsa.CFetch Require Import Model.
 From Salsa.CFetch2 Require Import Model ProofsRel.
 
 Definition walking (ph : phase2) : bool :=
-  match ph with QVerify _ _ | QExec _ _ => true | _ => false end.
+  match ph with QVerify _ _ | QExec _ _ _ => true | _ => false end.
 
 Definition hold2 (ph : phase2) : bool :=
-  match ph with QClaimed | QVerify _ _ | QExec _ _ | QRelease _ _ => true | _ => false end.
+  match ph with QClaimed | QVerify _ _ | QExec _ _ _ | QRelease _ _ => true | _ => false end.
 
 (* claims are exclusive (what CFetch2 relies on; proved for CFetch) *)
 Definition excl (s : cstate2) : Prop :=
@@ -49,10 +49,10 @@ Definition frame_ok mm cur (pend : list key) (f : frame2) : Prop :=
     ~ ver2m mm cur (g_key f) /\
     (ok = true -> exists m, mm (g_key f) = Some m /\
        forall d, In d (n_deps m) -> ~ In d (pend ++ l) -> good_dep mm cur (n_ver m) d)
-  | QExec l acc =>
-    ~ ver2m mm cur (g_key f) /\
+  | QExec l acc mc =>
+    ~ ver2m mm cur (g_key f) /\ mc <= cur /\
     exists done, q_deps Q (g_key f) = done ++ pend ++ l /\ acc = map (Ev cur) done /\
-                 forall d, In d done -> ver2m mm cur d
+                 forall d, In d done -> good_dep mm cur mc d
   | QRelease v c | QUnblock v c =>
     exists m, mm (g_key f) = Some m /\ n_ver m = cur /\ n_val m = v /\ n_chg m = c
   | _ => True
@@ -70,7 +70,9 @@ Record InvS (seen : key -> rev -> Prop) (s : cstate2) : Prop := mkInvS {
     forall r, seen k r -> n_chg m <= r -> Ev r k = n_val m;
   IV_seen : forall k r, seen k r -> r <= c2_cur s;
   IV_dep : forall k m d, c2_memo s k = Some m -> In d (n_deps m) -> seen d (n_ver m);
-  IV_stack : forall t, stack_ok (c2_memo s) (c2_cur s) [] (stack2 s t)
+  IV_stack : forall t, stack_ok (c2_memo s) (c2_cur s) [] (stack2 s t);
+  IV_cur : 1 <= c2_cur s;
+  IV_closed : forall k r d, seen k r -> In d (q_deps Q k) -> seen d r
 }.
 
 Lemma verified_value seen s d md :
@@ -79,6 +81,10 @@ Proof.
   intros I Hm Hv. destruct (IV_memo _ _ I _ _ Hm) as (Hc & _ & Hs & _ & Hval).
   apply Hval; [now rewrite <- Hv | lia].
 Qed.
+
+Lemma chg_le_cur seen s d md :
+  InvS seen s -> c2_memo s d = Some md -> n_ver md = c2_cur s -> n_chg md <= c2_cur s.
+Proof. intros I Hm Hv. destruct (IV_memo _ _ I _ _ Hm) as (Hc & _). lia. Qed.
 
 (* ---- a write to an unverified key leaves the other frames alone ---- *)
 Lemma frame_stable mm mm' cur k0 pend f :
@@ -93,13 +99,13 @@ Proof.
   assert (Hg : forall since d, good_dep mm cur since d -> good_dep mm' cur since d).
   { intros since d (m & Hm & Hvv & Hc). exists m. split; auto. rewrite Hoth; auto.
     intros ->. apply Hun. exists m. auto. }
-  destruct (g_phase f) as [| | | |l ok|l acc|v c|v c] eqn:Eph; auto.
+  destruct (g_phase f) as [| | | |l ok|l acc mc|v c|v c] eqn:Eph; auto.
   - assert (Hne : g_key f <> k0) by (intros E0; specialize (Hcond E0); discriminate).
     intros [Hnv Hok]. split.
     + intros (m & Hm & Hvv). apply Hnv. exists m. rewrite <- Hoth; auto.
     + intros Eok. destruct (Hok Eok) as (m & Hm & Hd). exists m. rewrite Hoth by auto. split; auto.
   - assert (Hne : g_key f <> k0) by (intros E0; specialize (Hcond E0); discriminate).
-    intros [Hnv (done & Hd & Ha & Hall)]. split.
+    intros [Hnv [Hmc (done & Hd & Ha & Hall)]]. split; [|split; [exact Hmc|]].
     + intros (m & Hm & Hvv). apply Hnv. exists m. rewrite <- Hoth; auto.
     + exists done. repeat split; auto.
   - intros (m & Hm & Hvv & Hr). exists m. rewrite Hoth; auto.
@@ -121,12 +127,12 @@ Qed.
 
 (* ---- a returned (value, changed_at) reaches a correct caller frame ---- *)
 Lemma deliver_ok mm cur d v c below md :
-  mm d = Some md -> n_ver md = cur -> n_val md = v -> n_chg md = c -> Ev cur d = v ->
+  mm d = Some md -> n_ver md = cur -> n_val md = v -> n_chg md = c -> Ev cur d = v -> c <= cur ->
   stack_ok mm cur [d] below -> stack_ok mm cur [] (deliver mm v c below).
 Proof.
-  intros Hm Hv Hval Hc HE. destruct below as [|f b]; cbn [deliver stack_ok]; auto.
+  intros Hm Hv Hval Hc HE Hcc. destruct below as [|f b]; cbn [deliver stack_ok]; auto.
   intros [Hf Hb]. unfold frame_ok in Hf.
-  destruct (g_phase f) as [| | | |l ok|l acc|v0 c0|v0 c0] eqn:Eph; cbn [stack_ok g_key].
+  destruct (g_phase f) as [| | | |l ok|l acc mc|v0 c0|v0 c0] eqn:Eph; cbn [stack_ok g_key].
   1-4: (split; [unfold frame_ok; rewrite Eph; auto | exact Hb]).
   - destruct Hf as [Hnv Hok]. split; [|exact Hb]. unfold frame_ok. cbn [g_phase g_key].
     split; auto. intros Eok. apply andb_true_iff in Eok as [Eok Eun].
@@ -136,17 +142,29 @@ Proof.
     destruct (N.eq_dec d' d) as [->|Hne].
     + exists md. repeat split; auto. now rewrite Hc.
     + apply Hd; auto. cbn [app]. intros [E0|E0]; [congruence | contradiction].
-  - destruct Hf as [Hnv (done & Hd & Ha & Hall)]. split; [|exact Hb].
-    unfold frame_ok. cbn [g_phase g_key]. split; auto.
+  - destruct Hf as [Hnv [Hmc (done & Hd & Ha & Hall)]]. split; [|exact Hb].
+    unfold frame_ok. cbn [g_phase g_key]. split; auto. split; [lia|].
     exists (done ++ [d]). split; [|split].
     + rewrite Hd. cbn [app]. now rewrite <- app_assoc.
     + rewrite map_app, Ha. cbn [map]. now rewrite HE.
-    + intros d' Hin. apply in_app_or in Hin as [Hin|[<-|[]]]; auto. exists md. auto.
+    + intros d' Hin. apply in_app_or in Hin as [Hin|[<-|[]]].
+      * destruct (Hall _ Hin) as (md' & A & B & C). exists md'. repeat split; auto. lia.
+      * exists md. repeat split; auto. lia.
   - split; [unfold frame_ok; rewrite Eph; exact Hf | exact Hb].
   - split; [unfold frame_ok; rewrite Eph; exact Hf | exact Hb].
 Qed.
 
 End Val.
+
+Lemma fold_max_ge b l x : In x l -> x <= fold_right N.max b l.
+Proof. induction l as [|a l IH]; intros []; cbn; [subst; lia | specialize (IH H); lia]. Qed.
+
+Lemma fold_max_le b l c : (forall x, In x l -> x <= c) -> b <= c -> fold_right N.max b l <= c.
+Proof.
+  induction l as [|a l IH]; intros H Hb; cbn; auto.
+  pose proof (H a (or_introl eq_refl)). assert (fold_right N.max b l <= c) by (apply IH; auto; intros x Hx; apply H; now right).
+  lia.
+Qed.
 
 Section Pres.
 Variable fuel : nat.
@@ -214,6 +232,11 @@ Proof.
     + eapply (stack_stable Q rank (c2_memo s) (u2_memo u) (c2_cur s) k0);
         [exact Hun | exact Hoth | | apply (IV_stack _ _ _ _ I)].
       intros f Hf Hk. apply (Hwalk t' f); auto.
+  - apply (IV_cur _ _ _ _ I).
+  - intros k r d [Hr | [-> ->]] Hin.
+    + left. eapply IV_closed; eauto.
+    + destruct (Hdeps _ Hin) as (md & Hmd & Hvd).
+      destruct (IV_memo _ _ _ _ I _ _ Hmd) as (_ & _ & Hsn & _). left. now rewrite <- Hvd.
 Qed.
 
 Lemma forallb_stamps cur k since :
@@ -234,7 +257,7 @@ Proof.
     exists seen. apply inv_nomemo; auto. cbn. auto.
   - (* Q_hit *)
     exists seen. apply inv_nomemo; auto. cbn [u2_stack].
-    eapply deliver_ok; eauto. eapply verified_value; eauto.
+    eapply deliver_ok; eauto; [eapply verified_value; eauto | eapply chg_le_cur; eauto].
   - exists seen. apply inv_nomemo; auto. cbn [u2_stack stack_ok g_key]. split; [exact Logic.I | auto].
   - exists seen. apply inv_nomemo; auto. cbn [u2_stack stack_ok g_key]. split; [exact Logic.I | auto].
   - exists seen. apply inv_nomemo; auto. cbn [u2_stack stack_ok g_key]. split; [exact Logic.I | auto].
@@ -255,7 +278,7 @@ Proof.
     + destruct Hph as [[-> Hnv] | (l & ok & ->)].
       * intros (m0 & Hm0 & Hv0). eapply Hnv; eauto.
       * unfold frame_ok in Hf. cbn [g_phase] in Hf. apply Hf.
-    + exists []. cbn. repeat split; auto. intros d [].
+    + split; [exact (IV_cur _ _ _ _ I)|]. exists []. cbn. repeat split; auto. intros d [].
   - (* Q_call_v *)
     exists seen. apply inv_nomemo; auto. cbn [u2_stack stack_ok g_key]. split; [exact Logic.I|].
     split; auto.
@@ -270,7 +293,7 @@ Proof.
     { rewrite <- (Hval (n_ver m) Hsn Hc).
       rewrite (E_unfold Q rank RK (c2_cur s) k), (E_unfold Q rank RK (n_ver m) k). f_equal.
       - apply map_ext_in. intros i Hi. pose proof (forallb_stamps _ _ _ Hin i Hi) as Hs.
-        pose proof (SK (c2_cur s) i) as Hconst. symmetry. now apply Hconst.
+        pose proof (proj1 SK (c2_cur s) i) as Hconst. symmetry. now apply Hconst.
       - apply map_ext_in. intros d Hdd. rewrite <- Hd in Hdd.
         destruct (Hdeps d Hdd ltac:(intros [])) as (md & Hmd & Hvd & Hcd).
         destruct (IV_memo _ _ _ _ I _ _ Hmd) as (Hc' & _ & Hsn' & _ & Hval').
@@ -282,33 +305,50 @@ Proof.
     + intros d Hdd. rewrite <- Hd in Hdd.
       destruct (Hdeps d Hdd ltac:(intros [])) as (md & Hmd & Hvd & _). exists md. auto.
   - (* Q_publish *)
-    destruct Hf as [Hun (done & Hd & Ha & Hall)]. cbn [app] in Hd. rewrite app_nil_r in Hd.
+    destruct Hf as [Hun [Hmc (done & Hd & Ha & Hall)]]. cbn [app] in Hd. rewrite app_nil_r in Hd.
     assert (HE : Ev (c2_cur s) k = q_body Q k (map (q_in Q (c2_cur s)) (q_ins Q k)) acc).
     { rewrite (E_unfold Q rank RK). now rewrite Ha, Hd. }
-    eexists. eapply (inv_write seen s t _ k (QExec [] acc) below
-      (mkM2 (c2_cur s) (q_body Q k (map (q_in Q (c2_cur s)) (q_ins Q k)) acc)
+    fold nv in HE.
+    assert (Hsm : forall i, In i (q_ins Q k) -> q_stamp Q (c2_cur s) i <= stamp_max Q (c2_cur s) k).
+    { intros i Hi. unfold stamp_max. apply fold_max_ge. now apply in_map. }
+    assert (Hsm2 : stamp_max Q (c2_cur s) k <= c2_cur s).
+    { unfold stamp_max. pose proof (IV_cur _ _ _ _ I) as H1. apply fold_max_le; [|exact H1].
+      intros x Hx. apply in_map_iff in Hx as (i & <- & _). exact (proj2 SK (c2_cur s) i H1). }
+    assert (Hch0 : forall r, seen k r -> ch0 <= r -> Ev r k = nv).
+    { intros r Hr Hle. pose proof (IV_seen _ _ _ _ I _ _ Hr) as Hrc. rewrite <- HE.
+      rewrite (E_unfold Q rank RK r k), (E_unfold Q rank RK (c2_cur s) k). f_equal.
+      - apply map_ext_in. intros i Hi. specialize (Hsm i Hi).
+        apply (proj1 SK (c2_cur s) i r); unfold ch0 in Hle; lia.
+      - apply map_ext_in. intros d Hdd. rewrite Hd in Hdd.
+        destruct (Hall d Hdd) as (md & Hmd & Hvd & Hcd).
+        destruct (IV_memo _ _ _ _ I _ _ Hmd) as (_ & _ & Hsn' & _ & Hval').
+        rewrite (Hval' r); [|eapply IV_closed; eauto; now rewrite Hd | unfold ch0 in Hle; lia].
+        rewrite (Hval' (c2_cur s)); auto; [now rewrite <- Hvd | lia]. }
+    eexists. eapply (inv_write seen s t _ k (QExec [] acc mc) below
+      (mkM2 (c2_cur s) nv
             (match c2_memo s k with
-             | Some mo => if n_val mo =? q_body Q k (map (q_in Q (c2_cur s)) (q_ins Q k)) acc
-                          then n_chg mo else c2_cur s
-             | None => c2_cur s end) (q_deps Q k))); eauto; cbn [n_ver n_chg n_val n_deps]; auto.
-    + destruct (c2_memo s k) as [mo|] eqn:Emo; [|lia].
-      destruct (n_val mo =? _); [|lia]. destruct (IV_memo _ _ _ _ I _ _ Emo) as (? & ? & _). lia.
-    + intros r Hr Hle. destruct (c2_memo s k) as [mo|] eqn:Emo.
-      * destruct (N.eqb_spec (n_val mo) (q_body Q k (map (q_in Q (c2_cur s)) (q_ins Q k)) acc)) as [Eq|Ne].
-        -- destruct (IV_memo _ _ _ _ I _ _ Emo) as (_ & _ & _ & _ & Hval). rewrite <- Eq. now apply Hval.
-        -- pose proof (IV_seen _ _ _ _ I _ _ Hr). assert (r = c2_cur s) by lia. subst r. exact HE.
-      * pose proof (IV_seen _ _ _ _ I _ _ Hr). assert (r = c2_cur s) by lia. subst r. exact HE.
-    + intros d Hdd. apply Hall. now rewrite <- Hd.
+             | Some mo => if q_eq Q k && (n_val mo =? nv) then n_chg mo else ch0
+             | None => ch0 end) (q_deps Q k))); eauto; cbn [n_ver n_chg n_val n_deps]; auto.
+    + destruct (c2_memo s k) as [mo|] eqn:Emo; [|unfold ch0; lia].
+      destruct (q_eq Q k && (n_val mo =? nv)); [|unfold ch0; lia].
+      destruct (IV_memo _ _ _ _ I _ _ Emo) as (? & ? & _). lia.
+    + intros r Hr Hle. destruct (c2_memo s k) as [mo|] eqn:Emo; [|now apply Hch0].
+      destruct (q_eq Q k && (n_val mo =? nv)) eqn:Eb; [|now apply Hch0].
+      apply andb_true_iff in Eb as [_ Eb]. apply N.eqb_eq in Eb.
+      destruct (IV_memo _ _ _ _ I _ _ Emo) as (_ & _ & _ & _ & Hval). rewrite <- Eb. now apply Hval.
+    + intros d Hdd. rewrite Hd in Hdd. destruct (Hall d Hdd) as (md & Hmd & Hvd & _). exists md. auto.
   - (* Q_release_quiet *)
     exists seen. apply inv_nomemo; auto. cbn [u2_stack].
-    destruct Hf as (m & Hm & Hv & Hval & Hc). eapply deliver_ok; eauto.
-    rewrite <- Hval. eapply verified_value; eauto.
+    destruct Hf as (m & Hm & Hv & Hval & Hc).
+    eapply deliver_ok; eauto; [rewrite <- Hval; eapply verified_value; eauto |
+                               rewrite <- Hc; eapply chg_le_cur; eauto].
   - (* Q_release_wake *)
     exists seen. apply inv_nomemo; auto. cbn [u2_stack stack_ok g_key]. split; auto.
   - (* Q_unblock *)
     exists seen. apply inv_nomemo; auto. cbn [u2_stack].
-    destruct Hf as (m & Hm & Hv & Hval & Hc). eapply deliver_ok; eauto.
-    rewrite <- Hval. eapply verified_value; eauto.
+    destruct Hf as (m & Hm & Hv & Hval & Hc).
+    eapply deliver_ok; eauto; [rewrite <- Hval; eapply verified_value; eauto |
+                               rewrite <- Hc; eapply chg_le_cur; eauto].
 Qed.
 
 (* THE TWO GUARDS, DERIVED.  What the model is about to write is the from-scratch value. *)
@@ -330,7 +370,7 @@ Proof.
   rewrite <- (Hval (n_ver m) Hsn Hc).
   rewrite (E_unfold Q rank RK (c2_cur s) k), (E_unfold Q rank RK (n_ver m) k). f_equal.
   - apply map_ext_in. intros i Hi. pose proof (forallb_stamps _ _ _ Hin i Hi) as Hs.
-    pose proof (SK (c2_cur s) i) as Hconst. symmetry. now apply Hconst.
+    pose proof (proj1 SK (c2_cur s) i) as Hconst. symmetry. now apply Hconst.
   - apply map_ext_in. intros d Hdd. rewrite <- Hd in Hdd.
     destruct (Hdeps d Hdd ltac:(intros [])) as (md & Hmd & Hvd & Hcd).
     destruct (IV_memo _ _ _ _ I _ _ Hmd) as (Hc' & _ & Hsn' & _ & Hval').
@@ -339,15 +379,15 @@ Proof.
 Qed.
 
 (* insert_memo: the body applied to the values the callees returned *)
-Lemma publish_value seen s t k acc below :
+Lemma publish_value seen s t k acc mc below :
   ranked2 Q rank -> InvS Q rank seen s ->
-  stack2 s t = (k @@ QExec [] acc) :: below ->
+  stack2 s t = (k @@ QExec [] acc mc) :: below ->
   q_body Q k (map (q_in Q (c2_cur s)) (q_ins Q k)) acc = Ev (c2_cur s) k.
 Proof.
   intros RK I Hst.
   pose proof (IV_stack _ _ _ _ I t) as Hok. rewrite Hst in Hok. cbn [stack_ok g_key] in Hok.
   destruct Hok as [Hf _]. unfold frame_ok in Hf. cbn [g_phase g_key] in Hf.
-  destruct Hf as [_ (done & Hd & Ha & _)]. cbn [app] in Hd. rewrite app_nil_r in Hd.
+  destruct Hf as [_ [_ (done & Hd & Ha & _)]]. cbn [app] in Hd. rewrite app_nil_r in Hd.
   rewrite (E_unfold Q rank RK). now rewrite Ha, Hd.
 Qed.
 
